@@ -1,9 +1,11 @@
 from props._kt import *
+from props.C09 import TT_UNIT
 
 PROPERTY = 'C08'
 LEVEL = 'proof'
 UNITS = [
     CANARY,
+    TT_UNIT,
     Kani(MT + 'c08_add_commands_captures_stamp_once', fns=[Fn(T, 'add_commands', TI)], kind='bounded', bound='one committed head, one offered command',
          cap_s=900, stubs=['evaluate_braid'],
          contract='add_commands: on first use the committed heads are copied into the tips and the head-set stamp is captured, together, exactly once, whether or not a command is accepted; '
@@ -12,13 +14,14 @@ UNITS = [
          contract='commit, stamp gate (no tips, nothing in flight): no stamp => Ok(false); stamp != heads_offset => ConcurrentTransaction; equal => Ok(false); '
                   'in all three nothing is written and no heads are committed', **RT),
 ]
+HARNESS_FILES = ['verus/c09_transaction_tips.py'] + HARNESS_FILES
 TRUSTED = KT_TRUSTED + ['Storage contract: heads_offset changes on every successful commit_heads (mock enforces it; the linear writer is C15)']
 ASSUMPTIONS = ['"the set of committed commands never shrinks" composes these contracts with C09 bookkeeping: written, not machine-checked',
                'interleavings are sequential compositions of these calls on one client (the API takes &mut self)']
 EXPLANATION = 'Stamp capture / compare contracts on the real Transaction::{add_commands, commit} for all storage outcomes.'
 MANIFEST = {
     'text': 'Proof at function level: the head-set stamp is captured exactly once, at the moment the committed heads are first read (regardless of what the batch contains), '
-            'and commit refuses with ConcurrentTransaction before touching storage when the stamp differs (checked on a transaction without tips; commit with a tip does not finish in CBMC within 50 min and is not covered). The tests exercise one interleaving.',
+            'and commit (Verus on the extracted text, any number of tips) refuses with ConcurrentTransaction before anything is written when the stamp differs, commits exactly the transaction\'s tips when it matches, and otherwise leaves the committed head set untouched. The tests exercise one interleaving.',
     'note': 'Havoc traits; commit with a non-empty tips map (flush + CommitHeads ordering) exceeded 3000 s of CBMC time and is not registered.',
-    'technique': 'Kani trace contracts over havoc trait implementations (ghost event log) + CBMC',
+    'technique': 'Verus on the extracted Transaction::commit + Kani trace contracts over havoc trait implementations (ghost event log, CBMC)',
 }
